@@ -114,6 +114,14 @@ def rules(ctx: Ctx) -> None:
         pv = k.args[0].args[0].id
         ok = any(p and t in (f"len({pv}) > 1", f"len({pv}) >= 2") for t, p in facts) or any((not p) and t in (f"len({pv}) <= 1", f"len({pv}) < 2", f"len({pv}) == 1") for t, p in facts)
         ctx.ob("R06.3", "paths-have-at-least-one-hop", ok, loc(gcl.mod, k), f"`{u(k)}` must be dominated by a proof that the path has more than one node (all_simple_paths yields [source] when source is target)")
+        # ... and by nothing else: every path of the graph between a root and a leaf is lineage (a further reason to drop one - "comes back to a
+        # dataset it already left" - removes end-to-end pairs)
+        import re as _re2
+        foreign = [t for t, p in facts if not _re2.fullmatch(rf"len\({pv}\) (>|>=|<|<=|==|!=) \d+", t) and pv in {x.id for x in ast.walk(ast.parse(t, mode="eval")) if isinstance(x, ast.Name)} or
+                   any(isinstance(x, ast.Name) and x.id != pv and any(kind_ in ("assign",) and any(isinstance(y, ast.Name) and y.id == pv for y in ast.walk(d_.value)) for kind_, d_ in prog.local_defs(gcl, x.id))
+                       for x in ast.walk(ast.parse(t, mode="eval")))]
+        ctx.ob("R06.3", "paths-dropped-for-the-stated-reason-only", not foreign, loc(gcl.mod, k),
+               "a path is kept or dropped by its length alone" + (f"; the insertion also depends on `{foreign[0]}`" if foreign else ""))
     # roots and leaves are chosen on the column sub-graph
     import re as _re
     txt = u(gcl.node)
@@ -177,3 +185,7 @@ def rules(ctx: Ctx) -> None:
     # ---- R06.10 (= R01.5): every place a sub-query can stand is walked at table level as it is at column level - a clause the table-level
     # walk skips makes the column paths start at a table the statement is not reported to read
     import_rules(ctx, "C01", {"R01.5": "R06.10"})
+
+    # ---- R06.11 (= R02.2 scope-map keys for every table, R02.11 qualifier part): a qualifier that names a table of the group must find it - the
+    # fall-back for an unknown qualifier is an invented table the script does not read
+    import_rules(ctx, "C02", {"R02.2": "R06.11", "R02.11": "R06.11"}, key_filter=lambda o: o.key.endswith("-keys-for-every-table") or o.rule == "R02.11")
